@@ -42,8 +42,97 @@ def run(chk, tier):
     # translation validation of the derive on the declaration corpus (shared with C09): variant indices, skipped and compact members
     from . import c09
     c09.corpus(chk, tier)
+    derived_siblings(chk, tier)
     chk.trusted += ["parity-scale-codec-derive emits what its attributes say", "SCALE leaf encodings", "syn parser"]
     chk.assumptions += ["the type also derives the codec's Encode with the locked codec derive version %s" % facts.locked_codec_derive_version()]
+
+
+def _nt(s):
+    """a type as both renderers would print it: no paths, no whitespace, no references, one name for the string types"""
+    s = re.sub(r"\s+", "", s or "")
+    s = s.replace("param:", "").replace("'static", "").replace("'_", "")
+    s = re.sub(r"'[a-z]\b", "", s)
+    prev = None
+    while prev != s:
+        prev = s
+        s = re.sub(r"[A-Za-z_][A-Za-z0-9_]*::", "", s)
+    s = re.sub(r"&(mut)?", "", s)
+    s = re.sub(r"^compact\((.*)\)$", r"Compact<\1>", s)
+    return s.replace("String", "str")
+
+
+def derived_siblings(chk, tier):
+    chk.rule("R3.6", "sibling agreement on the declaration corpus: for every declaration that derives both, the wire grammar extracted from the MIR of the "
+             "*derived Encode* (members written, in order; compact wrappers; the tag byte of each variant; variants and members not written at all) equals what "
+             "the *derived type_info* describes (members in order, Compact<_> exactly where Encode writes compact, variant index = tag byte, skipped members "
+             "and variants in neither) -- the codec derive's own output is the reference, not a reading of its attributes")
+    from ..lib import grammar, shapes
+    from . import c09
+    import json as _json
+    mirp, srcp = facts.ensure_fixture_facts()
+    d = _json.load(open(mirp))
+    d["_config"] = "fixtures"
+    prog = mir.Program(d)
+    ev = shapes.ShapeEval(prog)
+    der = {}
+    for imp in prog.impls_of("scale_info::TypeInfo"):
+        fn = [it for it in imp["items"] if it["name"] == "type_info"]
+        if fn and (imp.get("expn") or [{}])[0].get("kind") == "Derive":
+            der[prog.ty(imp["self_ty"]).get("d")] = fn[0]["path"]
+    n = 0
+
+    def members(enc, ti):
+        """first disagreement between the members Encode writes and the members type_info lists, or None"""
+        if len(enc) != len(ti):
+            return "Encode writes %d member(s) %s, type_info lists %d %s" % (len(enc), [e[0] for e in enc], len(ti), [f["name"] for f in ti])
+        for k, ((ef, es, ec), f) in enumerate(zip(enc, ti)):
+            nm = ef.split(".")[-1]
+            others = {e[0].split(".")[-1] for e in enc} - {nm}
+            if f["name"] is not None and f["name"] not in (nm, "r#" + nm) and nm != "r#" + f["name"] and (f["name"] in others or "r#" + f["name"] in others):
+                # (a name that is no member's name is a `#[scale_info(rename)]`: names are not on the wire; another member's name is a permutation)
+                return "position %d: Encode writes member `%s`, type_info lists `%s`" % (k, nm, f["name"])
+            tic = (f["ty"] or "").replace(" ", "").startswith("Compact<")
+            if ec != tic:
+                return "member %s: Encode writes it %s, type_info describes %s" % (nm, "compact" if ec else "plain", f["ty"])
+            if (es == "phantom") != (f["ty"] or "").replace(" ", "").startswith("PhantomData<"):
+                return "member %s: Encode symbol %s, type_info type %s" % (nm, es, f["ty"])
+            if es != "phantom" and not ec and _nt(es) != _nt(f["ty"]):
+                return "member %s: Encode writes a %s, type_info describes a %s" % (nm, _nt(es), _nt(f["ty"]))
+        return None
+    for a in sorted(prog.adts):
+        if not a.startswith("verif_fixtures::") or a not in der or grammar.impl_of(prog, grammar.ENC, a) is None:
+            continue
+        imp = grammar.impl_of(prog, grammar.ENC, a)
+        if (imp.get("expn") or [{}])[0].get("kind") != "Derive":
+            continue
+        where = prog.adts[a]["loc"]
+        try:
+            g = grammar.writer(prog, a, lenient=True)
+            sh = c09.from_shape(ev.type_info(der[a]))
+        except (grammar.Unrecognised, shapes.Unrecognised) as e:
+            chk.count("sibling_pairs_not_interpretable")
+            continue
+        n += 1
+        dd = sh["def"]
+        if g[0] == "seq":
+            diff = members(g[1], dd["fields"]) if dd["k"] == "composite" else "Encode writes a struct, type_info describes a %s" % dd["k"]
+        else:
+            diff = None
+            if dd["k"] != "variant":
+                diff = "Encode writes an enum, type_info describes a %s" % dd["k"]
+            else:
+                enc_tab = {tag: v[0] for tag, v in g[1].items()}
+                ti_tab = {v["index"]: v["name"] for v in dd["variants"]}
+                if enc_tab != ti_tab:
+                    diff = "tag bytes written by Encode %s, indices described by type_info %s" % (sorted(enc_tab.items()), sorted(ti_tab.items()))
+                else:
+                    for v in dd["variants"]:
+                        diff = members(g[1][v["index"]][1], v["fields"])
+                        if diff:
+                            diff = "variant %s: %s" % (v["name"], diff)
+                            break
+        chk.expect(diff is None, "R3.6", "siblings:" + a, where, diff or "derived Encode and derived type_info agree member by member", None)
+    chk.floor("R3.6", n, 200, "declarations of the corpus deriving both Encode and TypeInfo")
 
 
 def codec_keys(sf, fn):
